@@ -24,7 +24,8 @@ impl<T: Write> WritePrinter<T> {
     fn print_as_is(&mut self, s: &str) -> std::io::Result<usize> {
         let bytes_written = self.writer.write(s.as_bytes())?;
         self.writer.flush()?;
-        self.last_column += s.len();
+        // the column is counted in characters: a character above 127 takes two bytes
+        self.last_column += s.chars().count();
         Ok(bytes_written)
     }
 }
